@@ -153,4 +153,13 @@ def r4_split(ctx):
         o["rule"] = "R4"
 
 
-RULES = [("R1", r1_same_macros), ("R2", r2_contract), ("R3", r3_carry), ("R4", r4_split)]
+def r5_whitespace_notion(ctx):
+    """the slice and the buffered sources (and every later stage) must agree on what a blank is: one predicate, utils::is_whitespace"""
+    for cfg, F in ctx.facts.items():
+        one_whitespace_notion(ctx, "R5", F, cfg)
+        b = ctx.body(F, "utils::is_whitespace", "R5")
+        if b is not None:
+            ctx.ob("R5", "is_whitespace", valueset(b) == {9, 10, 13, 32}, "XML whitespace = {tab, LF, CR, space}", config=cfg)
+
+
+RULES = [("R1", r1_same_macros), ("R2", r2_contract), ("R3", r3_carry), ("R4", r4_split), ("R5", r5_whitespace_notion)]
